@@ -3,6 +3,14 @@
 COMMON_MODEL = "Go runtime, reflect, sync and the standard library are not modelled"
 
 PROPS = {
+    "C18": dict(
+        level_text="Coq theorems by structural induction over JSON-like documents of any nesting, for every text/template engine that renders action-free text to itself: fields without a template action come back equal from Build whatever the environment; execution changes nothing but the text of strings and keys (same shape); an identified variable without a value is rejected by Bind. The engine assumption is proved for the Gallina engine of the {{ . }} / {{ .NAME }} fragment used in the correspondence run, which executes Bind+Build on the real spec.Unstructured for generated specs/values and compares result, error class and panics with the model.",
+        level_note="Trusted: Coq kernel + vm_compute; hand transcription of template.go/node.go and Meta.Bind/Unstructured.Build; Go's text/template is a Section variable constrained only by render_plain (recorded assumption) and modelled for the generated fragment; nil and empty containers are identified (JSON view).",
+        technique="Coq structural induction (nested document type) with the template engine as a Section variable + vm_compute correspondence",
+        quick_n=500, thorough_n=15000, shard=40, mismatch_is_failure=True,
+        assumptions=["text/template renders text without '{{' unchanged (render_plain)"],
+        trusted_base=["pkg/template, pkg/spec (Bind/Build), pkg/value (Is) transcribed by hand into theories/Template/Template.v", COMMON_MODEL],
+    ),
     "C04": dict(
         level_text="Coq theorems for every history/interleaving (granularity: the status flip is atomic, threads are held at user-hook entries): termination is permanent and the exit error is the first Exit's; the flip takes all hooks (a terminated process holds none in any reachable state, a second Exit takes nothing - no hook can run twice), clears the values and hooks run as the reversed registration list. Tied to pkg/process by driving real processes from 2-3 worker goroutines with parking hooks so that Fork/AddExitHook/Exit of other threads land between the flip and any hook; hook log, Status/Err/Done/keys after every step and Join at the end are compared with the model; on complete states a Go oracle evaluates the property directly (each hook exactly once with the process's error, reverse order, cascade to descendants, Join iff children terminated).",
         level_note="Trusted: Coq kernel + vm_compute; hand transcription of process.go; the exactly-once / cascade / Join clauses at log level are checked on generated histories (model and implementation), not proved in Coq; WaitGroup and channels are Go runtime.",
